@@ -4,6 +4,7 @@ import (
 	"fmt"
 	"go/types"
 	"math/big"
+	"sort"
 	"strings"
 )
 
@@ -172,6 +173,16 @@ func (sc *Scope) evalIdent(name string) Val {
 	if v, ok := sc.params[name]; ok {
 		return v
 	}
+	if sc.e != nil {
+		if v, ok := sc.e.cells[name]; ok {
+			// a local variable that lives in a heap cell (captured by a closure / address taken)
+			t := deref(v.GT)
+			if isStruct(t) || isArray(t) {
+				return Val{T: v.T, S: SRef, GT: v.GT, Addr: true}
+			}
+			return Val{T: c.hsel(sc.cur, c.cellComp(t), v.T), S: c.sortOf(t), GT: t}
+		}
+	}
 	if name == "result" {
 		if len(sc.results) == 1 {
 			return sc.results[0]
@@ -213,7 +224,7 @@ func (sc *Scope) pkgObj(obj types.Object) (Val, bool) {
 			if b, isb := t.(*types.Basic); isb && b.Info()&types.IsUntyped != 0 {
 				return Val{Lit: v}, true
 			}
-			return Val{T: c.intLit(v, t), S: c.sortOf(t), GT: t}, true
+			return Val{T: c.intLit(v, t), S: c.sortOf(t), GT: t, ConstVal: v}, true
 		}
 		if isStringT(t) {
 			return Val{T: c.strLit(constantString(o)), S: SBytes, GT: t}, true
@@ -518,6 +529,18 @@ func (sc *Scope) evalBin(x *EBin) Val {
 			return Val{T: t, S: SBool, GT: boolT}
 		}
 	}
+	if a.ConstVal != nil && b.ConstVal != nil && a.GT != nil && (x.Op == "|" || x.Op == "&" || x.Op == "^") {
+		r := new(big.Int)
+		switch x.Op {
+		case "|":
+			r.Or(a.ConstVal, b.ConstVal)
+		case "&":
+			r.And(a.ConstVal, b.ConstVal)
+		case "^":
+			r.Xor(a.ConstVal, b.ConstVal)
+		}
+		return Val{T: c.intLit(r, a.GT), S: a.S, GT: a.GT, ConstVal: r}
+	}
 	if x.Op == "<<" || x.Op == ">>" {
 		if a.Lit != nil && b.Lit != nil {
 			if x.Op == "<<" {
@@ -535,6 +558,12 @@ func (sc *Scope) evalBin(x *EBin) Val {
 				return Val{Lit: r.Sub(a.Lit, b.Lit)}
 			case "*":
 				return Val{Lit: r.Mul(a.Lit, b.Lit)}
+			case "|":
+				return Val{Lit: r.Or(a.Lit, b.Lit)}
+			case "&":
+				return Val{Lit: r.And(a.Lit, b.Lit)}
+			case "^":
+				return Val{Lit: r.Xor(a.Lit, b.Lit)}
 			}
 		}
 		a, b = sc.unify(a, b)
@@ -886,6 +915,57 @@ func (sc *Scope) evalCall(x *ECall) Val {
 			xv = Val{T: "nil", S: SRef}
 		}
 		return Val{T: fmt.Sprintf("(forall ((r!o Ref)) (! (=> (and (select %s (root r!o)) (not (= r!o %s))) (= (select %s r!o) (select %s r!o))) :pattern ((select %s r!o))))", c.hget(sc.old, "$alloc"), xv.T, c.hget(sc.cur, comp), c.hget(sc.old, comp), c.hget(sc.cur, comp)), S: SBool, GT: boolT}
+	case "has":
+		// has(m, k): key k is present in map m
+		need(2)
+		m := arg(0)
+		mt, ok := m.GT.Underlying().(*types.Map)
+		if !ok {
+			sc.fail("has(m, k): m is not a map")
+		}
+		k := sc.coerceTo(arg(1), mt.Key())
+		return Val{T: fmt.Sprintf("(and (not (= %s nil)) (select %s %s))", m.T, c.hsel(sc.cur, c.mapDomComp(m.GT), m.T), k.T), S: SBool, GT: boolT}
+	case "mapdom":
+		need(1)
+		m := arg(0)
+		if _, ok := m.GT.Underlying().(*types.Map); !ok {
+			sc.fail("mapdom(m): m is not a map")
+		}
+		dom := c.mapDomComp(m.GT)
+		_, es := arraySorts(string(c.compSortOf(dom)))
+		return Val{T: c.hsel(sc.cur, dom, m.T), S: Sort(es)}
+	case "mapvals":
+		need(1)
+		m := arg(0)
+		if _, ok := m.GT.Underlying().(*types.Map); !ok {
+			sc.fail("mapvals(m): m is not a map")
+		}
+		vals := c.mapValComp(m.GT)
+		_, es := arraySorts(string(c.compSortOf(vals)))
+		return Val{T: c.hsel(sc.cur, vals, m.T), S: Sort(es)}
+	case "type_frame":
+		// type_frame(type(T)): no object of struct type T that was allocated in the old state
+		// has changed (any of its fields, nested structs included)
+		need(1)
+		tv := sc.eval(x.Args[0])
+		if tv.TypeLit == nil {
+			sc.fail("type_frame(type(T))")
+		}
+		comps := map[string]bool{}
+		sc.e.typeComps(tv.TypeLit, comps)
+		var names []string
+		for n := range comps {
+			names = append(names, n)
+		}
+		sort.Strings(names)
+		var cs []string
+		for _, comp := range names {
+			if !strings.HasPrefix(string(c.compSortOf(comp)), "(Array Ref ") {
+				continue
+			}
+			cs = append(cs, fmt.Sprintf("(forall ((r!t Ref)) (! (=> (select %s (root r!t)) (= (select %s r!t) (select %s r!t))) :pattern ((select %s r!t))))", c.hget(sc.old, "$alloc"), c.hget(sc.cur, comp), c.hget(sc.old, comp), c.hget(sc.cur, comp)))
+		}
+		return Val{T: and(cs...), S: SBool, GT: boolT}
 	case "zero":
 		need(1)
 		tv := sc.eval(x.Args[0])
